@@ -143,7 +143,7 @@ inductive WPk where
   | connack (ver : Nat) (sp : Bool) (code : Nat) (rm : Nat) (maxQos : Nat) (sei : Option Nat)
   | publish (ver : Nat) (m : Msg) (meSet : Bool)
   | ack (ver t id rc : Nat)
-  | suback (id : Nat) (rcs : List Nat)
+  | suback (ver id : Nat) (rcs : List Nat)
   | unsuback (ver id : Nat) (rcs : List Nat)
   | pingresp
   | disconnect (ver code : Nat)
@@ -231,7 +231,10 @@ def nextPacketID (c : Client) (maxID : Nat) : Option Nat :=
 def renderPublish (ver : Nat) (m : Msg) (meSet : Bool) : String :=
   let si := "+".intercalate ((m.subIds.filter (· > 0)).map toString)
   let v5 := ver == 5
-  s!"PUB:q{m.qos}:d{b01 m.dup}:r{b01 m.retain}:id{m.id}:t={hexStr m.topic}:p={hexStr m.payload}:si={if v5 then si else ""}:ta={if v5 && m.alias > 0 then toString m.alias else "-"}:me{if v5 && meSet then "+" else "0"}"
+  -- the independent decoder marks a PUBLISH whose topic name contains a wildcard (a will topic is not
+  -- validated by ConnectValidate, so `+/b` or `a/#` can be published and retained)
+  let bad := if m.topic.contains 43 || m.topic.contains 35 then "!bad(publish-topic-contains-wildcard)" else ""
+  s!"PUB:q{m.qos}:d{b01 m.dup}:r{b01 m.retain}:id{m.id}:t={hexStr m.topic}:p={hexStr m.payload}:si={if v5 then si else ""}:ta={if v5 && m.alias > 0 then toString m.alias else "-"}:me{if v5 && meSet then "+" else "0"}{bad}"
 
 def ackName (t : Nat) : String :=
   if t == 4 then "PUBACK" else if t == 5 then "PUBREC" else if t == 6 then "PUBREL" else "PUBCOMP"
@@ -258,7 +261,12 @@ def WPk.render : WPk → String
       else s!"CONNACK:sp{b01 (sp && code < 0x80)}:rc{hex2 rc}"
   | .publish ver m meSet => renderPublish ver m meSet
   | .ack ver t id rc => renderAck t id rc ver
-  | .suback id rcs => s!"SUBACK:id{id}:rcs={if rcs.isEmpty then "-" else String.join (rcs.map hex2)}"
+  | .suback ver id rcs =>
+    -- a packet identifier in use is answered with 0x91 for every filter, also to an MQTT 3 client (the
+    -- `continue` in processSubscribe skips the MQTT 3 downgrade); the independent decoder rejects it
+    match (if ver == 5 then none else rcs.find? (fun c => c != 0 && c != 1 && c != 2 && c != 0x80)) with
+    | some c => s!"!bad(suback-return-code-{hex2 c}-not-defined-for-MQTT-3)"
+    | none => s!"SUBACK:id{id}:rcs={if rcs.isEmpty then "-" else String.join (rcs.map hex2)}"
   | .unsuback ver id rcs =>
     s!"UNSUBACK:id{id}:rcs={if ver == 5 then (if rcs.isEmpty then "-" else String.join (rcs.map hex2)) else "-"}"
   | .pingresp => "PINGRESP"
@@ -629,7 +637,7 @@ def processSubscribe (s : Server) (i : Nat) (id subId : Nat) (filters : List Sub
     let (s, rcs, exs) := acc
     let sub := { sub with ident := subId }
     let fin (rc : Nat) : Nat := if rc > 2 && c.ver < 5 then 0x80 else rc
-    if inUse then (s, rcs ++ [fin 0x91], exs ++ [false])
+    if inUse then (s, rcs ++ [0x91], exs ++ [false])   -- `continue`: no MQTT 3 downgrade
     else if !isValidFilter sub.filter false then (s, rcs ++ [fin 0x8F], exs ++ [false])
     else if sub.noLocal && isSharedFilter sub.filter then (s, rcs ++ [fin 0x82], exs ++ [false])
     else if !aclOk s c.id sub.filter false then
@@ -642,7 +650,7 @@ def processSubscribe (s : Server) (i : Nat) (id subId : Nat) (filters : List Sub
   let (s, rcs, exs) := r
   let c := getObj s i
   if !c.isOpen then (s, [], some 0) else
-  let o1 := [Out.wrote c.conn (.suback id rcs)]
+  let o1 := [Out.wrote c.conn (.suback c.ver id rcs)]
   -- retained messages for the accepted filters
   let z := (filters.zip (rcs.zip exs)).zipIdx.foldl (fun (acc : Server × List Out) (xk : (Sub × Nat × Bool) × Nat) =>
     let x := xk.1
